@@ -5,6 +5,7 @@ use std::io::{BufRead, Write};
 use std::panic::{catch_unwind, AssertUnwindSafe};
 
 mod ops;
+mod gen_accessors;
 
 fn main() {
     std::panic::set_hook(Box::new(|_| {}));
